@@ -43,10 +43,9 @@ Definition opres_toks (r : opres) : list tok :=
   | OErrDomain => [TS "err"; TS "InvalidDomain"]
   | OErrAdd => [TS "err"; TS "AddRoute"]
   | OErrRemove => [TS "err"; TS "RemoveRoute"]
-  | OPanic => [TS "panic"]
   end.
 
-Definition is_panic (r : opres) : bool := match r with OPanic => true | _ => false end.
+Definition is_panic (r : opres) : bool := false.
 
 Definition route_toks (o : option route) : list tok :=
   match o with
